@@ -509,6 +509,44 @@ def suite_socketpair(ctx):
             s.count('backlog')
             a.close()
             b.close()
+    # a wait without a limit (timeout=None) on an empty queue waits for the frame: it is delivered when it arrives, for both connection classes
+    for cname in ('QueueConnection', 'SocketConnection'):
+        for delay in (0.0, 0.05, 0.15):
+            if cname == 'QueueConnection':
+                conn = uconn.QueueConnection(name='q', mtu=4095)
+                conn.open()
+                feed = lambda f: conn.fromuserqueue.put(f)
+                a = b = None
+            else:
+                a, b = socket.socketpair(socket.AF_UNIX, socket.SOCK_DGRAM)
+                conn = uconn.SocketConnection(a, bufsize=64)
+                conn.open()
+                feed = lambda f: b.send(f)
+            box = {}
+
+            def waiter():
+                try:
+                    box['frame'] = conn.wait_frame(timeout=None, exception=True)
+                except Exception as e:  # noqa
+                    box['exc'] = type(e).__name__
+            w = threading.Thread(target=waiter, daemon=True)
+            w.start()
+            time.sleep(delay)
+            feed(b'\x12\x34\x56')
+            w.join(2)
+            rec = {'site': cname + '.wait_frame(timeout=None)', 'input': 'frame arrives after %.2f s' % delay, 'kind': cname}
+            if box.get('frame') != b'\x12\x34\x56':
+                s.fail(dict(rec, observed='returned %r / raised %s / still waiting=%s' % (box.get('frame'), box.get('exc'), w.is_alive()),
+                            required='the frame, once it has arrived (a wait without limit gives up on nothing)'))
+                if w.is_alive():
+                    feed(b'\x00')
+            conn.close()
+            for x in (a, b):
+                if x is not None:
+                    x.close()
+            s.evaluations += 1
+            s.distinct.add(rec['site'] + rec['input'])
+            s.count('unbounded-wait:' + cname)
     s.sample({'kind': 'seqpacket', 'n': 100, 'disconnect_after': 37, 'required': 'the 37 frames, then an honest timeout, thread ends, close returns'})
     return s
 
